@@ -14,6 +14,7 @@ from gv.astutil import stmts_of
 from gv.astutil import unparse
 from gv.astutil import walk_body
 from gv.cfg import cfg_of
+from gv.props.shared import unfolded
 from gv.cursor import check_cursor_loops
 from gv.props import describe
 from gv.props.shared import branch_conditions
@@ -256,7 +257,51 @@ def check_equilibrium(ctx: Ctx) -> None:
     ctx.ob("17.5-equilibrium", con, bool(ok), "every coupling of the design space takes the MDA output of the same name", node=(sets or [f])[0], stmt="design_space[coupling] = MDA output[coupling]")
 
 
+_DO = "formulations/disciplinary_opt.py"
+_DAD = "core/mdo_functions/discipline_adapter.py"
+
+
+def check_disciplinary_design_space(ctx: Ctx) -> None:
+    """17.6: the disciplinary formulation keeps the design variables that are inputs of what it EXECUTES (its
+    top-level process): the inputs of disciplines nested below are computed by that process (weak couplings), not
+    optimised."""
+    f = ctx.index.method(_DO, "DisciplinaryOpt", "_filter_design_space")
+    con = cname(_DO, "DisciplinaryOpt", "_filter_design_space")
+    calls = [c for c in walk_body(f) if isinstance(c, ast.Call) and last_attr(c) == "get_all_inputs"]
+    ctx.need(len(calls) == 1 and calls[0].args, "DisciplinaryOpt._filter_design_space: get_all_inputs(...) not found")
+    alts = unfolded(f, calls[0].args[0]) or [calls[0].args[0]]
+    ok = all(isinstance(a_, ast.Call) and norm_stmt(a_.func) == "self.get_top_level_disciplines" for a_ in alts)
+    ctx.ob("17.6-disciplinary-design-space", con, ok, "the variables kept are the inputs of the top-level disciplines (get_top_level_disciplines()): with all the disciplines, the weak couplings present in the design space stay design variables although the chain computes them (spurious columns, a design space that differs from MDF's)", node=calls[0], stmt="inputs of the top-level disciplines")
+    filt = [c for c in walk_body(f) if isinstance(c, ast.Call) and last_attr(c) == "filter"]
+    ok = len(filt) == 1 and filt[0].args and all("intersection" in norm_stmt(a_) or "&" in norm_stmt(a_) for a_ in (unfolded(f, filt[0].args[0]) or [filt[0].args[0]]))
+    ctx.ob("17.6-disciplinary-design-space", con, ok, "the design space is restricted to the variables that are both inputs and design variables", node=(filt or [f])[0], stmt="design_space.filter(inputs & design variables)")
+
+
+def check_adapter_sizes(ctx: Ctx) -> None:
+    """17.7: the slices of the design vector handed to a discipline are computed from the sizes of its DEFAULT inputs;
+    the data of a previous execution only completes them (a discipline executed before with another size would
+    otherwise be sliced with the stale size)."""
+    f = ctx.index.method(_DAD, "DisciplineAdapter", "__create_input_names_to_slices")
+    con = cname(_DAD, "DisciplineAdapter", "__create_input_names_to_slices")
+    first = [s_ for s_ in stmts_of(f) if isinstance(s_, ast.Assign) and isinstance(s_.targets[0], ast.Name) and ("get_input_data" in norm_stmt(s_.value) or "defaults" in norm_stmt(s_.value))]
+    ctx.need(len(first) >= 1, "__create_input_names_to_slices: the mapping the sizes are computed from was not found")
+    var = first[0].targets[0].id
+    updates = [c for c in walk_body(f) if isinstance(c, ast.Call) and isinstance(c.func, ast.Attribute) and c.func.attr == "update" and dotted(c.func.value) == var]
+    cfg = cfg_of(f)
+    order = [("init", norm_stmt(first[0].value))] + [("update", norm_stmt(u.args[0]) if u.args else "") for u in sorted(updates, key=lambda u: (u.lineno, u.col_offset))]
+    if isinstance(first[0].value, ast.Dict):  # {**a, **b}
+        order = [("init", norm_stmt(v_)) for k_, v_ in zip(first[0].value.keys, first[0].value.values) if k_ is None] + order[1:]
+    srcs = ["defaults" if "defaults" in t else ("local" if "get_input_data" in t or "io.data" in t else "?") for _, t in order]
+    ok = "defaults" in srcs and (("local" not in srcs) or max(i for i, s_ in enumerate(srcs) if s_ == "defaults") > max(i for i, s_ in enumerate(srcs) if s_ == "local"))
+    ctx.ob("17.7-adapter-sizes", con, ok, f"the sizes are computed from {srcs}: the default inputs must take precedence over the data left by a previous execution", node=first[0], stmt="defaults override the previous local data")
+    use = [c for c in walk_body(f) if isinstance(c, ast.Call) and last_attr(c) == "compute_names_to_sizes"]
+    ok = len(use) == 1 and var in names_in(use[0])
+    ctx.ob("17.7-adapter-sizes", con, ok, "the sizes are computed from that mapping", node=(use or [f])[0], stmt="compute_names_to_sizes(mapping)")
+
+
 def run(ctx: Ctx) -> None:
+    check_disciplinary_design_space(ctx)
+    check_adapter_sizes(ctx)
     check_equilibrium(ctx)
     check_design_spaces(ctx)
     check_constraint(ctx)
